@@ -210,11 +210,17 @@ def part_literals(thorough, verd, stats, cov):
             unspec += 1
             continue
         if kind == "invalid":
-            # the reference lexer rejects this text; the property does not oblige rejection
+            # a text the grammar does not accept (llex.c reports an error) must be rejected, not read as other bytes
+            judged += 1
             if obs[0] != "err":
                 lenient += 1
                 if len(lenient_samples) < 6:
                     lenient_samples.append({"text": S(text), "observed": obs})
+                feat = "decimal-escape-above-255" if re.search(rb"\\(2[6-9]\d|2[5][6-9]|[3-9]\d\d)", bytes(text)) and text[0] in (34, 39) \
+                    else lit_feature(text)
+                verd.candidate("C16:lit:%s:invalid-accepted:%s" % ("short" if text[0] in (34, 39) else "long", feat),
+                               "`return %s` is not a literal of the grammar (llex.c: error) and must be rejected; the interpreter gave %s"
+                               % (S(text), json.dumps(obs)[:160]), {"part": "lit", "text": text, "expected": "invalid", "observed": obs})
             continue
         judged += 1
         if obs != ["s", val]:
@@ -223,7 +229,7 @@ def part_literals(thorough, verd, stats, cov):
                            {"part": "lit", "text": text, "expected": val, "observed": obs})
     cov["literals"] = {"cases_run": len(cases), "judged": judged, "form_cases": nforms,
                        "source_text_cases": len(cases) - nforms,
-                       "reference_rejects_but_accepted_not_judged": lenient, "lenient_samples": lenient_samples,
+                       "reference_rejects_but_accepted": lenient, "lenient_samples": lenient_samples,
                        "unspecified_not_judged": unspec}
     vlib.log("[C16] literals: %d texts (%d form renderings, %d source texts) run, %d judged; TLC %.1fs harness %.1fs"
              % (len(cases), nforms, len(cases) - nforms, judged, t1 - t0, time.time() - t1))
@@ -433,6 +439,10 @@ def num_key(reader, s, exp, obs):
             return "C16:num:%s:malformed-numeral-yields-NaN" % grp
         return "C16:num:%s:out-of-range-numeral-yields-NaN" % grp
     if exp[0] in ("v", "valid") and rejected:
+        if re.match(r"^0[xX][0-9a-fA-F]{17,}$", txt):
+            return "C16:num:%s:hex-beyond-64-bits-rejected" % grp
+        if grp == "tonumber-base" and re.match(r"^[+-]?0[xX][0-9a-fA-F]+$", txt):
+            return "C16:num:tonumber-base:0x-prefix-with-base-16-rejected"
         if any(c in raw for c in b"\v\f\r") and not any(c in core for c in b"\v\f\r"):
             return "C16:num:%s:blank-cr-vt-ff-not-skipped" % grp
         if reader == "ton10" and re.match(r"^0[xX][0-9a-fA-F]+$", txt):
@@ -441,6 +451,8 @@ def num_key(reader, s, exp, obs):
             return "C16:num:tonumber:exponent-without-dot-rejected"
         if expn and abs(int(expn.group(1))) >= 300:
             return "C16:num:%s:out-of-range-exponent-rejected" % grp
+        if re.match(r"^0[xX][0-9a-fA-F]{17,}$", txt):
+            return "C16:num:%s:hex-beyond-64-bits-rejected" % grp
         if re.match(r"^[+-]?\d{19,}$", txt):
             return "C16:num:%s:integer-beyond-int64-rejected" % grp
         return "C16:num:%s:rejects:%s" % (grp, shape(core))
@@ -527,6 +539,51 @@ NON_C_BLANKS = [[0xc2, 0x85], [0xc2, 0xa0], [0xe1, 0x9a, 0x80]] + [[0xe2, 0x80, 
                 [0xef, 0xbb, 0xbf], [0x85], [0xa0], [0x1c], [0x1d], [0x1e], [0x1f]]
 
 
+def tonumber_calls(verd, stats, rng, thorough, only=None):
+    """tonumber(arg, base): string or integral number as first argument, every base -2..40 (also as a numeric
+    string); expected results from Lexical.tla ToNumberStr / ToNumberNum (lbaselib.c luaB_tonumber)."""
+    if only is None:
+        strs = ["10", "ff", "FF", "Ff", "zz", "Zz", "7", "8", "19", "1a", "g", "0", "00", "", " ", " 10", "10 ", "\t10\n", " 1 0", "10x", "1.0",
+                "1e1", "0x10", "0X1f", "0x", "0xg", "x10", "-ff", "+ff", "-0", "+0", "-", "+", "- 1", "--1", "1-", "11", "101", "777", "z",
+                "\v11\f", "11\r", "0x 1", "0x-1", " +0x1F ", "-0x1"]
+        recs = [{"k": "tnb", "s": list(t.encode()), "b": b, "bstr": False} for t in strs for b in range(-2, 41)]
+        recs += [{"k": "tnb", "s": list(t.encode()), "b": b, "bstr": True} for t in strs[:12] for b in (2, 8, 10, 16, 36, 1, 37)]
+        nums = [0, 1, 7, 8, 9, 10, 11, 15, 16, 19, 77, 100, 101, 255, 1000, 65535, 123456, -1, -10] + \
+               [rng.randrange(0, 10 ** rng.randint(1, 7)) for _ in range(80 if thorough else 20)]
+        recs += [{"k": "tnn", "n": n, "b": b, "bstr": False} for n in nums for b in (0, 1, 2, 8, 9, 10, 11, 16, 36, 37)]
+    else:
+        recs = [only]
+    for i, r in enumerate(recs):
+        r["id"] = i
+    exp = tlc_file(recs, "tnb", stats)
+    out = harness("c16-tnb", {"cases": recs}, "tnb")
+    if len(out) != len(recs):
+        raise vlib.Infra("c16-tnb returned %d results for %d cases" % (len(out), len(recs)))
+    for rec, o in zip(recs, out):
+        ex, ob = exp[rec["id"]]["r"], o.get("r", ["panic"])
+        arg = S(rec["s"]) if rec["k"] == "tnb" else str(rec["n"])
+        call = "tonumber(%s, %s)" % (arg, ('"%d"' if rec["bstr"] else "%d") % rec["b"])
+        if ex[0] == "unspec":
+            continue
+        key = what = None
+        if ex[0] == "argerr":
+            if ob[0] != "err":
+                key, what = "C16:num:tonumber-base:base-out-of-range-not-an-error", "must raise 'base out of range'"
+        elif ex[0] == "bad":
+            if ob[0] != "nil":
+                key, what = "C16:num:tonumber-base:%s" % ("number-argument-not-converted-through-its-text" if rec["k"] == "tnn" else "accepts:" + shape(bytes(rec["s"]).strip())), "must be nil"
+        elif ob != ex:
+            txt = bytes(rec.get("s", [])).strip().decode("latin-1")
+            cls = "number-argument-not-converted-through-its-text" if rec["k"] == "tnn" else \
+                  "0x-prefix-with-base-16-rejected" if re.match(r"^[+-]?0[xX]", txt) and rec["b"] == 16 else \
+                  "base-as-string" if rec["bstr"] else "value:" + shape(txt.encode("latin-1"))
+            key, what = "C16:num:tonumber-base:%s" % cls, "must be %s" % json.dumps(ex)
+        if key:
+            verd.candidate(key, "%s %s; observed %s" % (call, what, json.dumps(ob)[:120]),
+                           {"part": "tnb", "case": {k: v for k, v in rec.items() if k != "id"}, "expected": ex, "observed": ob})
+    return len(recs)
+
+
 def hand_numerals():
     base = ["1", "10", "0x10", "1.5", "1e1", ".5", "5.", "0"]
     out = []
@@ -541,7 +598,8 @@ def hand_numerals():
     for t in ["inf", "nan", "Inf", "NaN", "infinity", "-inf", "-nan", "nan(1)", "0b1", "0B11", "0o7", "0O17", "1_000", "0x_1", "0_1",
               "1p1", "0x1p1", "0x1P-1", "0x.8p1", "0x1.8", "1e1_0", "1__0", "_1", "1_", "0x1_f", "1e_1",
               "9223372036854775807", "9223372036854775808", "18446744073709551615", "18446744073709551616",
-              "-9223372036854775808", "-9223372036854775809", "1" + "0" * 30, "0" * 25 + "1", "0x7fffffff", "0xffffffff", "0XFFFFFFFF",
+              "-9223372036854775808", "-9223372036854775809", "1" + "0" * 30, "0" * 25 + "1", "0x7fffffff", "0xffffffff", "0XFFFFFFFF", "0xffffffffffffffff", "0x10000000000000000", "0X1" + "0" * 24,
+              " 0xfffffffffffffffff ", "0x123456789abcdef0123",
               "2147483647", "2147483648", "4294967296", "9007199254740993", "1e308", "1e309", "1.0e309", "-1.5e999", "1e-400", "1.0e-400",
               "1.7976931348623157e308",
               "4.9e-324", "123456789", "1234567890", "00000000012", "0012", "-0012", "+0012", "0012.5", "0012e1", "08", "09", "-010",
@@ -597,6 +655,8 @@ def part_numerals(thorough, verd, stats, cov):
         for item in numeral_failures(e, o, cnt):
             verd.candidate(*item)
     evals, judged, unspec, retok = cnt["evals"], cnt["judged"], cnt["unspec"], cnt["retok"]
+    ntnb = tonumber_calls(verd, stats, rng, thorough)
+    cov["tonumber_arg_base_calls"] = ntnb
     cov["numerals"] = {"spellings": len(exp), "exhaustive_spellings": nexh,
                        "exhaustive_rule": "all byte strings of length <= %d over %s" % (5 if thorough else 4, S(NUM_ALPHA)),
                        "reader_evaluations": evals, "judged": judged, "unspecified_not_judged": unspec,
@@ -930,7 +990,7 @@ def replay(path):
         e = tlc_file([{"id": 0, "k": "lit", "t": rp["text"]}], "rp", stats)[0]
         o = harness("c16-lit", {"cases": [{"id": 0, "src": rp["text"]}]}, "rp")[0]
         vlib.log("text %s: spec %s %s, interpreter %s" % (S(rp["text"]), e["kind"], S(e["v"]), json.dumps(o.get("r"))))
-        if e["kind"] == "ok" and o.get("r") != ["s", e["v"]]:
+        if (e["kind"] == "ok" and o.get("r") != ["s", e["v"]]) or (e["kind"] == "invalid" and o.get("r", ["err"])[0] != "err"):
             verd.candidate(rec["key"], rec["what"], rp)
     elif part == "num":
         e = tlc_file([{"id": 0, "k": "num", "s": rp["s"]}], "rp", stats)[0]
@@ -980,6 +1040,12 @@ def replay(path):
             bad = o["rt"] != t or o["fromspec"] != g["back"] or o["fromstr"] != g["back"] or o["noon"] != g["noon"]
         if bad:
             verd.candidate(rec["key"], rec["what"], rp)
+    elif part == "tnb":
+        c = Collect()
+        tonumber_calls(c, stats, None, False, only=dict(rp["case"]))
+        for item in c.items:
+            vlib.log("  fails: [%s] %s" % (item[0], item[1]))
+            verd.candidate(*item)
     elif part == "datewide":
         probe = harness("c16-date", {"ts": [], "dirs": [], "comps": [], "fields": []}, "rpp", env={"TZ": rp["tz"]})[0]
         fails, _ = date_wide(rp["tz"], rp["offset"], probe["zone"], None, False, stats, only={"d": rp["d"], "s": rp["s"]})
